@@ -250,35 +250,56 @@ def run_unit(unit, tier='quick', tag='main', solver=None):
     os.makedirs(os.path.join(BUILD, unit), exist_ok=True)
     spec = os.path.join(CONTRACTS, unit + '.spec')
     t0 = time.time()
-    try:
-        u, text, info = W.build_unit(spec, REPO, CONTRACTS, shims.SHIMS)
-    except (W.WeaveError, ScanError) as e:
-        raise Undecided('weave error in unit %s: %s' % (unit, e))
-    fname = '%s_%s.rs' % (unit, tag)
-    path = os.path.join(BUILD, unit, fname)
-    open(path, 'w').write(text)
-    lines, fn_of, blk_of, lab_of, obligations = analyse_woven(text)
+    force = {}
+    attempts = 0
+    while True:
+        attempts += 1
+        try:
+            u, text, info = W.build_unit(spec, REPO, CONTRACTS, shims.SHIMS, force)
+        except (W.WeaveError, ScanError) as e:
+            raise Undecided('weave error in unit %s: %s' % (unit, e))
+        for f, fi in info.items():
+            if fi.get('degraded'):
+                force[f] = fi['degraded']
+        fname = '%s_%s.rs' % (unit, tag)
+        path = os.path.join(BUILD, unit, fname)
+        open(path, 'w').write(text)
+        lines, fn_of, blk_of, lab_of, obligations = analyse_woven(text)
 
-    # trusted-base scan against the allow-list
-    trusted = trusted_scan(text)
-    allow = load_allow()
-    unknown = [t for t in trusted if t not in allow]
-    if unknown:
-        raise Undecided('unit %s: trusted items not in contracts/trusted.allow: %s' % (unit, unknown))
+        # trusted-base scan against the allow-list
+        trusted = trusted_scan(text)
+        allow = load_allow()
+        unknown = [t for t in trusted if t not in allow and not (t.startswith('external_body fn ') and t.split()[-1] in force)]
+        if unknown:
+            raise Undecided('unit %s: trusted items not in contracts/trusted.allow: %s' % (unit, unknown))
 
-    extra = ['-V', 'cvc5'] if solver == 'cvc5' else []
-    cmd = verus_cmd(path, tier, extra)
-    rc, out, err, wall, was_cached = cached_verus(cmd, path, os.path.join(BUILD, unit))
-    diags, other = parse_diagnostics(err)
-    verif_errs, tool_errs = classify(diags)
-    try:
-        oj = json.loads(out[out.index('{'):]) if '{' in out else {}
-    except ValueError:
-        oj = {}
-    if tool_errs or not oj.get('verification-results'):
-        msgs = [d.get('rendered') or d.get('message') for d in tool_errs][:5]
-        raise Undecided('unit %s: Verus did not get to verification (compile error / unsupported construct / internal error):\n%s\n%s'
-                        % (unit, '\n'.join(m or '' for m in msgs), '\n'.join(other[:10])))
+        extra = ['-V', 'cvc5'] if solver == 'cvc5' else []
+        cmd = verus_cmd(path, tier, extra)
+        rc, out, err, wall, was_cached = cached_verus(cmd, path, os.path.join(BUILD, unit))
+        diags, other = parse_diagnostics(err)
+        verif_errs, tool_errs = classify(diags)
+        try:
+            oj = json.loads(out[out.index('{'):]) if '{' in out else {}
+        except ValueError:
+            oj = {}
+        if tool_errs or not oj.get('verification-results'):
+            # attribute compile errors / unsupported constructs to the function that contains them and retry with
+            # that function's contract assumed (its obligations become UNDECIDED, the rest of the unit is still decided)
+            culprits = set()
+            for d in tool_errs:
+                for sp in d.get('spans', []):
+                    if os.path.basename(sp['file_name']) == fname and sp['line_start'] < len(fn_of) and fn_of[sp['line_start']]:
+                        culprits.add(fn_of[sp['line_start']])
+            culprits = [c for c in culprits if c not in force and c in info and not info[c]['extern']]
+            if culprits and attempts <= 6:
+                for c in culprits:
+                    msg = [d.get('message') for d in tool_errs if any(os.path.basename(sp['file_name']) == fname and fn_of[min(sp['line_start'], len(fn_of) - 1)] == c for sp in d.get('spans', []))]
+                    force[c] = 'verus: %s' % (msg[0] if msg else 'tool error')
+                continue
+            msgs = [d.get('rendered') or d.get('message') for d in tool_errs][:5]
+            raise Undecided('unit %s: Verus did not get to verification (compile error / unsupported construct / internal error):\n%s\n%s'
+                            % (unit, '\n'.join(m or '' for m in msgs), '\n'.join(other[:10])))
+        break
     # per-function results
     fres = {}
     smt = oj.get('times-ms', {}).get('smt', {})
@@ -302,14 +323,14 @@ def run_unit(unit, tier='quick', tag='main', solver=None):
             raise Undecided('unit %s: solver resource limit: %s' % (unit, m))
     res = dict(unit=unit, path=path, info=info, obligations=obligations, errors=errors, fres=fres, trusted=trusted,
                allow=allow, verus=oj.get('verification-results'), times=oj.get('times-ms', {}), cmd=' '.join(cmd), wall=wall,
-               weave_wall=time.time() - t0 - wall, cached=was_cached, version=oj.get('verus', {}), text=text, spec=u)
+               weave_wall=time.time() - t0 - wall, cached=was_cached, degraded=dict(force), version=oj.get('verus', {}), text=text, spec=u)
     return res
 
 
 def run_canary(res, tier):
     """second pass: assert(false) at the entry of every function under contract must FAIL."""
     text = res['text']
-    names = [n for n, i in res['info'].items() if not i['extern']]
+    names = [n for n, i in res['info'].items() if not i['extern'] and not i.get('degraded')]
     ctext = re.sub(r'/\*@ENTRY:(\w+)\*/', lambda m: 'assert(false); /*@CANARY:%s*/' % m.group(1), text)
     unit = res['unit']
     fname = '%s_canary.rs' % unit
@@ -354,7 +375,12 @@ def load_known():
 
 
 def props_of(ob, info):
-    if ob['props_override']:
-        return ob['props_override']
     f = info.get(ob['fn'])
-    return f['props'] if f else []
+    fprops = f['props'] if f else []
+    if ob['props_override']:
+        # the representation invariant is what carries each operation's own property to later calls
+        # (no hidden cells, cursor inside, ...): its clause counts for the function's properties too
+        if ob['label'] == 'wf':
+            return list(dict.fromkeys(ob['props_override'] + fprops))
+        return ob['props_override']
+    return fprops
